@@ -102,6 +102,11 @@ def perturbations(p):
     q['charge'] = 3 if p['charge'] != 3 else 2
     q['adducts'] = p['adducts']
     out.append(('charge', q))
+    if p['adducts'] is None:
+        # charge 0 is a charge state, "no charge" is none: the two differ (and a charged peptide differs from both)
+        q = copy.deepcopy(p)
+        q['charge'] = 0 if p['charge'] != 0 else None
+        out.append(('charge/zero-vs-none', q))
     if p['charge'] is not None:
         q = copy.deepcopy(p)
         q['adducts'] = '+H+' if p['adducts'] != '+H+' else '+Na+'
@@ -195,6 +200,12 @@ def check_case(case) -> Result:
                error=str(e)[:120])
     if pt.strip_mods(s) != p['seq']:
         r.fail('stripping removes every modification and nothing else', 'C20/strip_mods', s=s, got=pt.strip_mods(s))
+    a_ip = a.copy()
+    a_ip.strip(inplace=True)
+    p_ip = model.project(a_ip, True)
+    if a_ip.sequence != p['seq'] or any(p_ip[k] not in (None, [], {}) for k in p_ip if k != 'seq'):
+        r.fail('stripping removes every modification and nothing else', 'C20/strip-inplace-leaves-something', s=s,
+               left={k: v for k, v in p_ip.items() if k != 'seq' and v not in (None, [], {})})
     st_a = a.strip()
     if st_a.sequence != p['seq'] or st_a.has_mods() or model.project(a, True) != snap:
         r.fail('strip() returns the bare residues and leaves the source alone', 'C20/strip-annotation', s=s)
@@ -270,6 +281,9 @@ def _scribble(a):
         for iv in a.intervals:
             iv.start += 1000
             if iv.mods is not None:
+                if iv.mods:
+                    iv.mods[0].val = 'scribbled'  # the Mod objects inside an interval too, not only the list
+                    iv.mods[0].mult = 77
                 iv.mods.append(Mod('scribble', 1))
         a.intervals.append(a.intervals[0])
     a.charge = 42
